@@ -16,9 +16,9 @@ from __future__ import annotations
 import itertools
 
 from hypothesis import strategies as st
-from sqlalchemy import Column, Integer, String
+from sqlalchemy import Column, ForeignKey, Integer, String, Table, join
 from sqlalchemy.exc import IntegrityError
-from sqlalchemy.orm import Session, declarative_base
+from sqlalchemy.orm import Session, column_property, declarative_base
 from sqlalchemy.orm.exc import StaleDataError
 
 from vf import sautil
@@ -28,7 +28,10 @@ PROPERTY = "C44"
 LEVEL = "exploration"
 RULE = (
     "exh: two sessions that both start with the row loaded, every pair of per-session op sequences over {load, write, write_rb, delete, forget, switch} of length <=2 (thorough: <=3) x EVERY interleaving "
-    "of the two sequences x both version schemes (integer counter, custom string generator). random: 2-3 sessions, 1-2 rows, sequences of <=5 ops over "
+    "of the two sequences x both version schemes (integer counter, custom string generator). exh_shapes: mapping shapes with the version column on the BASE table - "
+    "joined-table inheritance of depth 2 and 3 and one class mapped against a plain join of two tables - two preloaded sessions, every pair of sequences of length <=2 "
+    "(thorough <=3) over {load, write, delete} where session 0 changes column i and session 1 column j for every (i, j) over {base, intermediate, leaf} table columns, "
+    "x every interleaving. random: all five mapping shapes, 2-3 sessions, 1-2 rows, sequences of <=5 ops over "
     "{load, forget, write, write_same, write_rb, write2 (both rows in one flush), delete, insert, switch (row switch: delete + add of a new object with the same "
     "primary key in one flush = one versioned UPDATE)} and a drawn interleaving. Non-trivial: at some point two "
     "sessions hold the same row loaded at the same version and both then attempt a write or delete (so exactly one may win), or a write/delete is "
@@ -66,7 +69,67 @@ class StrRow(Base):
     __mapper_args__ = {"version_id_col": ver, "version_id_generator": _strgen}
 
 
-VARIANTS = [(IntRow, lambda v: (v or 0) + 1), (StrRow, _strgen)]
+# --- mapping shapes: the version column is on the BASE table, the changed column may live on the base, an intermediate or the leaf table
+class A2(Base):  # joined-table inheritance, depth 2
+    __tablename__ = "v2_base"
+    id = Column(Integer, primary_key=True)
+    ver = Column(Integer, nullable=False)
+    kind = Column(String(10))
+    val = Column(Integer)
+    __mapper_args__ = {"version_id_col": ver, "polymorphic_on": kind, "polymorphic_identity": "a"}
+
+
+class L2(A2):
+    __tablename__ = "v2_leaf"
+    id = Column(Integer, ForeignKey("v2_base.id"), primary_key=True)
+    leaf = Column(Integer)
+    __mapper_args__ = {"polymorphic_identity": "l"}
+
+
+class A3(Base):  # joined-table inheritance, depth 3
+    __tablename__ = "v3_base"
+    id = Column(Integer, primary_key=True)
+    ver = Column(Integer, nullable=False)
+    kind = Column(String(10))
+    val = Column(Integer)
+    __mapper_args__ = {"version_id_col": ver, "polymorphic_on": kind, "polymorphic_identity": "a"}
+
+
+class M3(A3):
+    __tablename__ = "v3_mid"
+    id = Column(Integer, ForeignKey("v3_base.id"), primary_key=True)
+    mid = Column(Integer)
+    __mapper_args__ = {"polymorphic_identity": "m"}
+
+
+class L3(M3):
+    __tablename__ = "v3_leaf"
+    id = Column(Integer, ForeignKey("v3_mid.id"), primary_key=True)
+    leaf = Column(Integer)
+    __mapper_args__ = {"polymorphic_identity": "l"}
+
+
+_ja = Table("vj_a", Base.metadata, Column("id", Integer, primary_key=True), Column("val", Integer), Column("ver", Integer, nullable=False))
+_jb = Table("vj_b", Base.metadata, Column("aid", Integer, ForeignKey("vj_a.id"), primary_key=True), Column("leaf", Integer))
+
+
+class JoinRow(Base):  # one class mapped against a plain join of two tables
+    __table__ = join(_ja, _jb)
+    id = column_property(_ja.c.id, _jb.c.aid)
+    __mapper_args__ = {"version_id_col": _ja.c.ver}
+
+
+_intgen = lambda v: (v or 0) + 1  # noqa: E731
+VARIANTS = [
+    {"name": "flat-int", "cls": IntRow, "gen": _intgen, "cols": ["val"], "tables": [IntRow.__table__], "sql": "select id, val, ver from vrow_int"},
+    {"name": "flat-str", "cls": StrRow, "gen": _strgen, "cols": ["val"], "tables": [StrRow.__table__], "sql": "select id, val, ver from vrow_str"},
+    {"name": "joined2", "cls": L2, "gen": _intgen, "cols": ["val", "leaf"], "tables": [A2.__table__, L2.__table__],
+     "sql": "select b.id, b.val, l.leaf, b.ver from v2_base b join v2_leaf l on l.id = b.id"},
+    {"name": "joined3", "cls": L3, "gen": _intgen, "cols": ["val", "mid", "leaf"], "tables": [A3.__table__, M3.__table__, L3.__table__],
+     "sql": "select b.id, b.val, m.mid, l.leaf, b.ver from v3_base b join v3_mid m on m.id = b.id join v3_leaf l on l.id = b.id"},
+    {"name": "join", "cls": JoinRow, "gen": _intgen, "cols": ["val", "leaf"], "tables": [_ja, _jb],
+     "sql": "select a.id, a.val, b.leaf, a.ver from vj_a a join vj_b b on b.aid = a.id"},
+]
 
 
 def _interleave(seqs, order):
@@ -86,22 +149,43 @@ def _interleave(seqs, order):
 
 
 def check_schedule(case, ctx):
-    cls, gen = VARIANTS[case["variant"]]
+    import warnings
+
+    from sqlalchemy.exc import SAWarning
+
+    with warnings.catch_warnings():
+        # a stale DELETE on a multi-table mapping first warns about the unversioned table ("expected to delete 1 row(s); 0 were matched")
+        # before the versioned table raises StaleDataError; the exception is what is judged
+        warnings.simplefilter("ignore", SAWarning)
+        return _check_schedule(case, ctx)
+
+
+def _check_schedule(case, ctx):
+    V = VARIANTS[case["variant"]]
+    cls, gen, cols = V["cls"], V["gen"], V["cols"]
+    ncol = len(cols)
+
+    def mk(rid_, vals):
+        return cls(id=rid_, **dict(zip(cols, vals)))
+
+    def view(o):
+        """(column values, version) as currently held in the instance dict"""
+        return (tuple(o.__dict__.get(c) for c in cols), o.__dict__.get("ver"))
     nrows = case.get("rows", 1)
     seqs = case["seqs"]
     sched = _interleave(seqs, case["order"])
     eng = sautil.file_engine(ctx)
     sessions = []
     raw = None
-    classes = set()
+    classes = {"shape:" + V["name"]}
     nontrivial = False
     try:
-        Base.metadata.create_all(eng, tables=[cls.__table__])
+        Base.metadata.create_all(eng, tables=V["tables"])
         db = {}  # model of the table: id -> (val, ver)
         with Session(eng) as s0:
             for r in range(nrows):
-                s0.add(cls(id=r + 1, val=0))
-                db[r + 1] = (0, gen(None))
+                s0.add(mk(r + 1, (0,) * ncol))
+                db[r + 1] = ((0,) * ncol, gen(None))
             s0.commit()
         raw = sautil.raw_connect(eng._vf_path)
         sessions = [Session(eng, expire_on_commit=False) for _ in seqs]
@@ -111,7 +195,7 @@ def check_schedule(case, ctx):
         pending_conflict = set()  # (row, version) currently loaded by >= 2 sessions
 
         def observe(where, op):
-            rows = {r[0]: (r[1], r[2]) for r in raw.execute(f"select id, val, ver from {cls.__tablename__}")}
+            rows = {r[0]: (tuple(r[1:-1]), r[-1]) for r in raw.execute(V["sql"])}
             if rows != db:
                 sig = f"C44/{op}/table-differs-from-serial-model"
                 raise Violation(sig, f"{where}: table {rows} != serial model {db}", observed=rows, expected=db)
@@ -129,8 +213,9 @@ def check_schedule(case, ctx):
                 return
             if rid not in db:
                 raise Violation("C44/load/phantom-row", f"session {si} loaded row {rid} that the model says is deleted")
-            if (o.val, o.ver) != db[rid]:
-                raise Violation("C44/load/stale-read", f"session {si} fresh load of row {rid} gave {(o.val, o.ver)} but table has {db[rid]}", observed=[o.val, o.ver], expected=list(db[rid]))
+            got_ = (tuple(getattr(o, c) for c in cols), o.ver)
+            if got_ != db[rid]:
+                raise Violation("C44/load/stale-read", f"session {si} fresh load of row {rid} gave {got_} but table has {db[rid]}", observed=str(got_), expected=str(db[rid]))
             cache[si][rid] = db[rid]
             objs[si][rid] = o
 
@@ -188,10 +273,12 @@ def check_schedule(case, ctx):
                     continue
                 changed = []
                 for k, t in enumerate(targets):
-                    newv = cache[si][t][0] if op == "write_same" else 100 + step * 3 + k
-                    objs[si][t].val = newv
-                    if newv != cache[si][t][0]:
-                        changed.append((t, newv))
+                    ci = arg % ncol  # which column (= which table of the mapping) carries the change
+                    classes.add(f"write-col:{cols[ci]}" + ("" if ncol == 1 else f"@{V['name']}"))
+                    newv = cache[si][t][0][ci] if op == "write_same" else 100 + step * 3 + k
+                    setattr(objs[si][t], cols[ci], newv)
+                    if newv != cache[si][t][0][ci]:
+                        changed.append((t, cache[si][t][0][:ci] + (newv,) + cache[si][t][0][ci + 1:]))
                 stale = [t for t, _ in changed if is_stale(si, t)]
                 try:
                     sess.flush()
@@ -220,9 +307,8 @@ def check_schedule(case, ctx):
                             db[t] = (newv, newver)
                             cache[si][t] = db[t]
                             o = objs[si][t]
-                            if (o.__dict__.get("val"), o.__dict__.get("ver")) != db[t]:
-                                raise Violation(f"C44/{op}/in-memory-version", f"{where}: after commit object holds {(o.__dict__.get('val'), o.__dict__.get('ver'))}, stored {db[t]}",
-                                                observed=[o.__dict__.get("val"), o.__dict__.get("ver")], expected=list(db[t]))
+                            if view(o) != db[t]:
+                                raise Violation(f"C44/{op}/in-memory-version", f"{where}: after commit object holds {view(o)}, stored {db[t]}", observed=str(view(o)), expected=str(db[t]))
             elif op == "delete":
                 ensure_loaded(si, rid)
                 if rid not in cache[si]:
@@ -260,9 +346,9 @@ def check_schedule(case, ctx):
                     sess.commit()
                     classes.add("switch-on-missing-row")
                     continue
-                newv = 300 + step
+                newv = tuple(300 + step * 3 + k for k in range(ncol))
                 old = objs[si][rid]
-                new = cls(id=rid, val=newv)
+                new = mk(rid, newv)
                 sess.delete(old)
                 sess.add(new)
                 stale = is_stale(si, rid)
@@ -287,15 +373,15 @@ def check_schedule(case, ctx):
                     cache[si][rid] = db[rid]
                     objs[si][rid] = new
                     classes.add("row-switch-done")
-                    if (new.__dict__.get("val"), new.__dict__.get("ver")) != db[rid]:
-                        raise Violation("C44/switch/in-memory-version", f"{where}: after the row switch the new object holds {(new.__dict__.get('val'), new.__dict__.get('ver'))}, "
-                                        f"expected {db[rid]} (version must be generator(loaded version))", observed=[new.__dict__.get("val"), new.__dict__.get("ver")], expected=list(db[rid]))
+                    if view(new) != db[rid]:
+                        raise Violation("C44/switch/in-memory-version", f"{where}: after the row switch the new object holds {view(new)}, "
+                                        f"expected {db[rid]} (version must be generator(loaded version))", observed=str(view(new)), expected=str(db[rid]))
             elif op == "insert":
                 if rid in cache[si]:
                     sess.commit()
                     classes.add("insert-skipped-row-loaded")
                     continue
-                o = cls(id=rid, val=200 + step)
+                o = mk(rid, (200 + step,) * ncol)
                 sess.add(o)
                 try:
                     sess.flush()
@@ -311,11 +397,11 @@ def check_schedule(case, ctx):
                     if got is not None:
                         raise Violation("C44/insert/spurious-integrity-error", f"{where}: row absent but INSERT failed")
                     sess.commit()
-                    db[rid] = (200 + step, gen(None))
+                    db[rid] = ((200 + step,) * ncol, gen(None))
                     cache[si][rid] = db[rid]
                     objs[si][rid] = o
-                    if (o.__dict__.get("val"), o.__dict__.get("ver")) != db[rid]:
-                        raise Violation("C44/insert/in-memory-version", f"{where}: after insert object holds {(o.__dict__.get('val'), o.__dict__.get('ver'))}, model {db[rid]}")
+                    if view(o) != db[rid]:
+                        raise Violation("C44/insert/in-memory-version", f"{where}: after insert object holds {view(o)}, model {db[rid]}")
             else:
                 raise ValueError(op)
             observe(where, op)
@@ -356,6 +442,30 @@ def _exh_cases(tier):
                     yield {"variant": variant, "rows": 1, "preload": True, "seqs": [[[op, 0, 0] for op in a], [[op, 0, 0] for op in b]], "order": order}
 
 
+_SHAPE_ALPHA = ["load", "write", "delete"]
+
+
+def _exh_shape_cases(tier):
+    """mapping shapes (joined inheritance depth 2 / 3, mapper against a join): every pair of sequences of length <=2 over {load, write,
+    delete}, where session 0 writes column i and session 1 writes column j for EVERY (i, j) over the mapping's tables, x every interleaving"""
+    maxlen = 2 if tier == "quick" else 3
+    seqs = []
+    for L in range(1, maxlen + 1):
+        seqs += list(itertools.product(_SHAPE_ALPHA, repeat=L))
+    for variant in (2, 3, 4):
+        ncol = len(VARIANTS[variant]["cols"])
+        for ci in range(ncol):
+            for cj in range(ncol):
+                for a in seqs:
+                    for b in seqs:
+                        if "write" not in a and "write" not in b:
+                            continue
+                        if (ci, a) > (cj, b):
+                            continue  # the two sessions are symmetric: (column i, seq a | column j, seq b) == its mirror image
+                        for order in _all_interleavings(len(a), len(b)):
+                            yield {"variant": variant, "rows": 1, "preload": True, "seqs": [[[op, 0, ci] for op in a], [[op, 0, cj] for op in b]], "order": order}
+
+
 # ------------------------------------------------------------------ random schedules
 _R_OPS = ["load", "load", "forget", "write", "write", "write_same", "write_rb", "write2", "delete", "insert", "switch", "switch"]
 
@@ -366,14 +476,15 @@ def _schedules(draw):
     nrows = draw(st.sampled_from([1, 2]))
     seqs = []
     for _ in range(ns):
-        seqs.append([[draw(st.sampled_from(_R_OPS)), draw(st.integers(0, 1)), 0] for _ in range(draw(st.integers(1, 5)))])
+        seqs.append([[draw(st.sampled_from(_R_OPS)), draw(st.integers(0, 1)), draw(st.integers(0, 2))] for _ in range(draw(st.integers(1, 5)))])
     flat = [i for i, s in enumerate(seqs) for _ in s]
     order = list(draw(st.permutations(flat)))
-    return {"variant": draw(st.integers(0, 1)), "rows": nrows, "preload": draw(st.booleans()), "seqs": seqs, "order": order}
+    return {"variant": draw(st.sampled_from([0, 1, 2, 3, 3, 4])), "rows": nrows, "preload": draw(st.booleans()), "seqs": seqs, "order": order}
 
 
 def subs(tier):
     return [
         Enumerated("exh", check_schedule, cases=_exh_cases, budget_s_quick=90.0),
-        Generated("random", check_schedule, strategy=_schedules(), quick=400, thorough=30000),
+        Enumerated("exh_shapes", check_schedule, cases=_exh_shape_cases, budget_s_quick=90.0),
+        Generated("random", check_schedule, strategy=_schedules(), quick=600, thorough=30000),
     ]
